@@ -1,0 +1,417 @@
+//! Observation hooks for external runtime monitors.
+//!
+//! This module is compiled only with the cargo feature `verif`, which is off by default.
+//! It exposes plain-data views of internal state (the lattice of a worker, the connector's
+//! cost function, the character table) and a thread-local event log that the tokenizer
+//! appends to. Nothing here changes the behaviour of the library.
+use std::cell::RefCell;
+
+use crate::dictionary::connector::{Connector, ConnectorCost, ConnectorWrapper};
+use crate::dictionary::{Dictionary, LexType};
+use crate::tokenizer::worker::Worker;
+
+/// Plain copy of a lattice node.
+#[derive(Clone, Debug, PartialEq, Eq)]
+pub struct NodeDump {
+    /// Word id inside its lexicon.
+    pub word_id: u32,
+    /// Lexicon type.
+    pub lex_type: LexType,
+    /// Boundary whose nodes are the predecessors of this node.
+    pub start_node: usize,
+    /// Character position where the word starts.
+    pub start_word: usize,
+    /// Left connection id.
+    pub left_id: u16,
+    /// Right connection id.
+    pub right_id: u16,
+    /// Index of the best predecessor in `ends[start_node]`.
+    pub min_idx: usize,
+    /// Cost of the best path from BOS up to and including this node.
+    pub min_cost: i32,
+}
+
+/// Plain copy of the lattice of a worker after `tokenize`.
+#[derive(Clone, Debug, Default)]
+pub struct LatticeDump {
+    /// Number of characters of the sentence the lattice was built for.
+    pub len_char: usize,
+    /// `ends[i]` = nodes ending at character boundary `i` (`ends[0]` holds BOS).
+    pub ends: Vec<Vec<NodeDump>>,
+    /// The EOS node if the lattice was completed.
+    pub eos: Option<NodeDump>,
+}
+
+/// Dumps the lattice currently held by the worker.
+pub fn dump_lattice(worker: &Worker) -> LatticeDump {
+    worker.lattice.verif_dump()
+}
+
+/// Returns `(num_right, num_left)` of the connector.
+pub fn conn_dims(dict: &Dictionary) -> (usize, usize) {
+    let c = dict.connector();
+    (c.num_right(), c.num_left())
+}
+
+/// Returns the connection cost exactly as the tokenizer evaluates it.
+pub fn conn_cost(dict: &Dictionary, right_id: u16, left_id: u16) -> i32 {
+    match dict.connector() {
+        ConnectorWrapper::Matrix(c) => c.cost(right_id, left_id),
+        ConnectorWrapper::Raw(c) => c.cost(right_id, left_id),
+        ConnectorWrapper::Dual(c) => c.cost(right_id, left_id),
+    }
+}
+
+/// Returns the kind of the connector: `"matrix"`, `"raw"` or `"dual"`.
+pub fn connector_kind(dict: &Dictionary) -> &'static str {
+    match dict.connector() {
+        ConnectorWrapper::Matrix(_) => "matrix",
+        ConnectorWrapper::Raw(_) => "raw",
+        ConnectorWrapper::Dual(_) => "dual",
+    }
+}
+
+/// Whether the dictionary holds a user lexicon / an id mapper.
+pub fn has_user_and_mapper(dict: &Dictionary) -> (bool, bool) {
+    (dict.user_lexicon().is_some(), dict.mapper().is_some())
+}
+
+/// Character information as the tokenizer sees it.
+#[derive(Clone, Copy, Debug, PartialEq, Eq)]
+pub struct CharInfoDump {
+    /// Bit set of category ids.
+    pub cate_idset: u32,
+    /// Primary category id.
+    pub base_id: u32,
+    /// INVOKE flag.
+    pub invoke: bool,
+    /// GROUP flag.
+    pub group: bool,
+    /// LENGTH value.
+    pub length: u16,
+}
+
+/// Looks up the character information of `c`.
+pub fn char_info(dict: &Dictionary, c: char) -> CharInfoDump {
+    let ci = dict.char_prop().char_info(c);
+    CharInfoDump {
+        cate_idset: ci.cate_idset(),
+        base_id: ci.base_id(),
+        invoke: ci.invoke(),
+        group: ci.group(),
+        length: ci.length(),
+    }
+}
+
+/// Category names indexed by category id.
+pub fn categories(dict: &Dictionary) -> Vec<String> {
+    dict.char_prop().verif_categories()
+}
+
+/// Builds a scorer from `(key1, key2, cost)` entries through the real builder and evaluates
+/// `accumulate_cost` (portable or AVX2 according to the build) on the two key rows.
+/// Keys must be below 2^31. Rows are padded with zero keys to a multiple of eight.
+pub fn scorer_eval(entries: &[(u32, u32, i32)], keys1: &[u32], keys2: &[u32]) -> i32 {
+    crate::dictionary::connector::verif_scorer_eval(entries, keys1, keys2)
+}
+
+/// An event observed inside the tokenizer.
+#[derive(Clone, Copy, Debug, PartialEq, Eq)]
+pub enum Event {
+    /// The lattice was reset for a sentence of `len_char` characters.
+    LatticeReset {
+        /// Sentence length in characters.
+        len_char: usize,
+    },
+    /// A connection cost was evaluated.
+    CostEval {
+        /// Right id of the left-hand node.
+        right_id: u16,
+        /// Left id of the right-hand node.
+        left_id: u16,
+        /// The value returned by the connector.
+        cost: i32,
+    },
+    /// A node was inserted.
+    NodeInserted {
+        /// Predecessor boundary.
+        start_node: usize,
+        /// Start of the word.
+        start_word: usize,
+        /// End of the word.
+        end_word: usize,
+    },
+    /// The EOS node was inserted.
+    EosInserted {
+        /// Predecessor boundary.
+        start_node: usize,
+    },
+    /// The connection-id counter was incremented.
+    CounterAdd {
+        /// Left id.
+        left_id: u16,
+        /// Right id.
+        right_id: u16,
+        /// Amount.
+        num: usize,
+    },
+}
+
+/// Totals of the events seen on this thread since the last [`take_events`].
+#[derive(Clone, Copy, Debug, Default, PartialEq, Eq)]
+pub struct EventTotals {
+    /// Lattice resets.
+    pub resets: u64,
+    /// Connection cost evaluations.
+    pub cost_evals: u64,
+    /// Inserted nodes.
+    pub nodes: u64,
+    /// Inserted EOS nodes.
+    pub eos: u64,
+    /// Counter increments.
+    pub counter_adds: u64,
+}
+
+#[derive(Default)]
+struct Log {
+    detail: bool,
+    totals: EventTotals,
+    events: Vec<Event>,
+    yield_state: u64,
+}
+
+thread_local! {
+    static LOG: RefCell<Log> = RefCell::new(Log::default());
+}
+
+/// Turns the detailed (per-event) log of this thread on or off. Totals are always kept.
+pub fn set_event_detail(on: bool) {
+    LOG.with(|l| l.borrow_mut().detail = on);
+}
+
+/// Returns and clears the totals and the detailed events of this thread.
+pub fn take_events() -> (EventTotals, Vec<Event>) {
+    LOG.with(|l| {
+        let mut l = l.borrow_mut();
+        let t = l.totals;
+        l.totals = EventTotals::default();
+        (t, std::mem::take(&mut l.events))
+    })
+}
+
+/// Seeds the schedule perturbation of this thread: with a non-zero seed the tokenizer calls
+/// `std::thread::yield_now()` at pseudo-random lattice columns. Zero turns it off.
+pub fn set_yield_seed(seed: u64) {
+    LOG.with(|l| l.borrow_mut().yield_state = seed);
+}
+
+#[inline]
+pub(crate) fn record(e: Event) {
+    LOG.with(|l| {
+        let mut l = l.borrow_mut();
+        match e {
+            Event::LatticeReset { .. } => l.totals.resets += 1,
+            Event::CostEval { .. } => l.totals.cost_evals += 1,
+            Event::NodeInserted { .. } => l.totals.nodes += 1,
+            Event::EosInserted { .. } => l.totals.eos += 1,
+            Event::CounterAdd { .. } => l.totals.counter_adds += 1,
+        }
+        if l.detail {
+            l.events.push(e);
+        }
+    });
+}
+
+#[inline]
+pub(crate) fn maybe_yield() {
+    let do_yield = LOG.with(|l| {
+        let mut l = l.borrow_mut();
+        if l.yield_state == 0 {
+            return false;
+        }
+        l.yield_state = l
+            .yield_state
+            .wrapping_mul(6364136223846793005)
+            .wrapping_add(1442695040888963407)
+            | 1;
+        (l.yield_state >> 33) % 4 == 0
+    });
+    if do_yield {
+        std::thread::yield_now();
+    }
+}
+
+#[cfg(feature = "train")]
+pub use self::train::*;
+
+#[cfg(feature = "train")]
+mod train {
+    use crate::errors::Result;
+    use crate::trainer::{Model, TrainerConfig};
+
+    /// Applies the rules of one section (`"unigram"`, `"left"` or `"right"`) of a rewrite.def
+    /// text to a feature list through the real parser and rewriter.
+    pub fn rewrite(
+        rewrite_def: &str,
+        section: &str,
+        features: &[String],
+    ) -> Result<Option<Vec<String>>> {
+        TrainerConfig::verif_rewrite(rewrite_def, section, features)
+    }
+
+    /// Result of expanding templates over feature rows.
+    #[derive(Clone, Debug, Default)]
+    pub struct Expansion {
+        /// Per call, in call order: the ids returned by the extractor.
+        pub ids: Vec<Vec<Option<u32>>>,
+        /// String -> id table of unigram features after all calls.
+        pub unigram_table: Vec<(String, u32)>,
+        /// String -> id table of left features after all calls.
+        pub left_table: Vec<(String, u32)>,
+        /// String -> id table of right features after all calls.
+        pub right_table: Vec<(String, u32)>,
+    }
+
+    /// Parses a feature.def text with the real parser and runs the real extractor over
+    /// `calls`, each being `(side, features, category id)` with side `'U'`, `'L'` or `'R'`.
+    pub fn expand(feature_def: &str, calls: &[(char, Vec<String>, u32)]) -> Result<Expansion> {
+        let mut fe = TrainerConfig::parse_feature_config(feature_def.as_bytes())?;
+        let mut out = Expansion::default();
+        for (side, feats, cate) in calls {
+            let ids: Vec<Option<u32>> = match side {
+                'U' => fe
+                    .extract_unigram_feature_ids(feats, *cate)
+                    .into_iter()
+                    .map(|x| Some(x.get()))
+                    .collect(),
+                'L' => fe
+                    .extract_left_feature_ids(feats)
+                    .into_iter()
+                    .map(|x| x.map(|x| x.get()))
+                    .collect(),
+                _ => fe
+                    .extract_right_feature_ids(feats)
+                    .into_iter()
+                    .map(|x| x.map(|x| x.get()))
+                    .collect(),
+            };
+            out.ids.push(ids);
+        }
+        let tab = |m: &hashbrown::HashMap<String, std::num::NonZeroU32>| {
+            let mut v: Vec<(String, u32)> = m.iter().map(|(k, v)| (k.clone(), v.get())).collect();
+            v.sort();
+            v
+        };
+        out.unigram_table = tab(&fe.unigram_feature_ids);
+        out.left_table = tab(&fe.left_feature_ids);
+        out.right_table = tab(&fe.right_feature_ids);
+        Ok(out)
+    }
+
+    /// Plain-data view of a trained model.
+    #[derive(Clone, Debug, Default)]
+    pub struct ModelView {
+        /// Seed lexicon surfaces in row order.
+        pub surfaces: Vec<String>,
+        /// Seed lexicon feature strings in row order.
+        pub features: Vec<String>,
+        /// Unknown entries in handler order: (category name, feature).
+        pub unk_entries: Vec<(String, String)>,
+        /// Per label (seed rows, then unknown entries, then user rows): merged
+        /// (weight, left id, right id).
+        pub labels: Vec<(f64, u32, u32)>,
+        /// Merged matrix: `matrix[right_id]` = sorted `(left_id, weight)`.
+        pub matrix: Vec<Vec<(u32, f64)>>,
+        /// Per left connection id (1-origin, index 0 = id 1): right-feature ids.
+        pub left_conn_to_right_feats: Vec<Vec<Option<u32>>>,
+        /// Per right connection id (1-origin, index 0 = id 1): left-feature ids.
+        pub right_conn_to_left_feats: Vec<Vec<Option<u32>>>,
+        /// Left feature strings and ids.
+        pub left_feature_ids: Vec<(String, u32)>,
+        /// Right feature strings and ids.
+        pub right_feature_ids: Vec<(String, u32)>,
+        /// Raw weights.
+        pub weights: Vec<f64>,
+        /// Raw bigram weight indices: per left feature id, sorted (right feature id, weight index).
+        pub bigram_weight_indices: Vec<Vec<(u32, u32)>>,
+        /// User entries: (surface, feature, left id, right id, cost, label id).
+        pub user_entries: Vec<(String, String, u16, u16, i16, u32)>,
+    }
+
+    /// Copies the data of the model (merging it first, as the writers do).
+    pub fn model_view(model: &mut Model) -> Result<ModelView> {
+        if model.merged_model.is_none() {
+            model.merged_model = Some(model.data.raw_model.merge()?);
+        }
+        let merged = model.merged_model.as_ref().unwrap();
+        let config = &model.data.config;
+        let mut v = ModelView {
+            surfaces: config.surfaces.clone(),
+            ..Default::default()
+        };
+        for i in 0..config.surfaces.len() {
+            let idx = crate::dictionary::WordIdx::new(
+                crate::dictionary::LexType::System,
+                u32::try_from(i).unwrap(),
+            );
+            v.features
+                .push(config.dict.system_lexicon().word_feature(idx).to_string());
+        }
+        for i in 0..config.dict.unk_handler().len() {
+            let idx = crate::dictionary::WordIdx::new(
+                crate::dictionary::LexType::Unknown,
+                u32::try_from(i).unwrap(),
+            );
+            let cate = config.dict.unk_handler().word_cate_id(idx);
+            v.unk_entries.push((
+                config
+                    .dict
+                    .char_prop()
+                    .cate_str(u32::from(cate))
+                    .unwrap_or("")
+                    .to_string(),
+                config.dict.unk_handler().word_feature(idx).to_string(),
+            ));
+        }
+        for fs in &merged.feature_sets {
+            v.labels
+                .push((fs.weight, fs.left_id.get(), fs.right_id.get()));
+        }
+        for hm in &merged.matrix {
+            let mut row: Vec<(u32, f64)> = hm.iter().map(|(&k, &w)| (k, w)).collect();
+            row.sort_by_key(|x| x.0);
+            v.matrix.push(row);
+        }
+        let conv = |x: &Vec<Vec<Option<std::num::NonZeroU32>>>| -> Vec<Vec<Option<u32>>> {
+            x.iter()
+                .map(|r| r.iter().map(|o| o.map(|n| n.get())).collect())
+                .collect()
+        };
+        v.left_conn_to_right_feats = conv(&merged.left_conn_to_right_feats);
+        v.right_conn_to_left_feats = conv(&merged.right_conn_to_left_feats);
+        let tab = |m: &hashbrown::HashMap<String, std::num::NonZeroU32>| {
+            let mut t: Vec<(String, u32)> = m.iter().map(|(k, v)| (k.clone(), v.get())).collect();
+            t.sort();
+            t
+        };
+        v.left_feature_ids = tab(config.feature_extractor.left_feature_ids());
+        v.right_feature_ids = tab(config.feature_extractor.right_feature_ids());
+        v.weights = model.data.raw_model.weights().to_vec();
+        for hm in model.data.raw_model.bigram_weight_indices() {
+            let mut row: Vec<(u32, u32)> = hm.iter().map(|(&k, &w)| (k, w)).collect();
+            row.sort();
+            v.bigram_weight_indices.push(row);
+        }
+        for (word, param, label) in &model.user_entries {
+            v.user_entries.push((
+                word.surface().to_string(),
+                word.feature().to_string(),
+                param.left_id,
+                param.right_id,
+                param.word_cost,
+                label.get(),
+            ));
+        }
+        Ok(v)
+    }
+}
